@@ -1,56 +1,106 @@
 """Data for MANIFEST.json (see gen_manifest.py)."""
 
-NOTES = ("Technique family: machine-checked proof in Lean 4. Every check regenerates the table modules from /repo, rebuilds the property's "
-         "theorem modules (lake) and audits their axioms, rebuilds the Rust harness from /repo's working tree, and runs the model+spec "
-         "(Lean driver) and the real code on the same generated inputs. See DESIGN.md.")
+NOTES = ("Technique family: machine-checked proof in Lean 4. Every check regenerates the table modules from /repo (translator), rebuilds the property's "
+         "theorem modules (lake) and audits their axioms (#print axioms; sorry/axiom/native_decide grep), rebuilds the Rust harness / the p2sh binary from /repo's "
+         "working tree, and runs the Lean model+spec (driver) and the real code on the same generated inputs. A broken proof, table or correspondence without a failing "
+         "input is reported as `VIOLATION … no-failing-input-found`. See DESIGN.md; defects repaired in /repo and known findings are in known_findings.json.")
 
 _ALL = ["C%02d" % i for i in range(1, 25)]
+_COMMON = ("Trusted: Lean 4.33 kernel; axioms propext/Classical.choice/Quot.sound only; the translator; the correspondence harness and generators; the hand-written "
+           "models are tied to the code by differential runs only. ")
+
+
+def _c(pid, technique, text, note):
+    return {"property_id": pid, "technique": technique, "text": text, "note": _COMMON + note}
+
 
 CHECKS = [
-    {
-        "property_id": "C14",
-        "technique": "Lean 4 theorems over translator-generated opcode tables + differential correspondence of make/read_operands",
-        "text": ("Kernel-checked theorems: decode(encode)=id for every opcode and every operand list that fits the declared widths (unbounded, by induction on the "
-                 "width list), the VM's inline operand reads equal the DEFINITIONS layout for every opcode, From<u8> inverts the discriminant. The tables the "
-                 "theorems quantify over are regenerated from the Rust source on every run; make/lookup/read_operands are hand-modelled and compared with the "
-                 "real functions on every opcode byte and an operand sweep (exhaustive over all 16-bit values in the thorough tier)."),
-        "note": ("Trusted: Lean kernel; axioms propext/Classical.choice/Quot.sound; the translator; the correspondence harness. The compiler half of C14 "
-                 "(programs needing wider operands are rejected) is stated over the compiler model and listed under open obligations until closed."),
-    },
-]
-
-CHECKS += [
-    {
-        "property_id": "C09",
-        "technique": "Lean 4 theorems (model of the operator opcodes meets Spec.Ops) + exhaustive kind-pair/boundary differential run against the real VM",
-        "text": ("Kernel-checked: integer + - * / % and unary - ~ equal exact integer arithmetic reduced modulo 2^64 for all operands (via Int64.toInt lemmas), "
-                 "/0 and %0 are runtime errors for every numeric kind, no operator application panics for any pair of values (by cases over all kinds), the error rows "
-                 "(arrays under non-+, booleans under ordering, negative repetition) and integer relational consistency with ==. Spec.Ops is executable and is the oracle "
-                 "for the differential run: every operator x every ordered pair of operand kinds x boundary pools, plus random 64-bit operands, through the real VM."),
-        "note": ("Full table theorem binary_spec is open: shifts and byte arithmetic are covered by the exhaustive oracle run, not yet by a theorem. Float results are "
-                 "'the IEEE primitive applied to the converted operands' (Lean Float is opaque to the kernel; IEEE primitives trusted). The model of ops is hand-written, tied by correspondence."),
-    },
-    {
-        "property_id": "C06",
-        "technique": "Lean 4 theorem falsey_table (is_falsey = documented table for every value) + exhaustive differential run of is_falsey / ! on the real code",
-        "text": ("Kernel-checked: Object::is_falsey as modelled equals the documented falsey table for every value of every kind, hence ! yields true exactly on it and never fails. "
-                 "The model is compared with the real is_falsey and the real Bang opcode on representatives of every kind (zero/non-zero, empty/non-empty, NaN, -0.0, nested containers, "
-                 "closures, builtins, handles, error objects) and random values."),
-        "note": "The && / || code templates and the if/while/filter positions are open obligations until the compiler/VM model lands; they are then checked through the language-level engine.",
-    },
-    {
-        "property_id": "C10",
-        "technique": "Lean 4 refinement proof (hash-table model refines an association list under ==) + differential run on a real HMap",
-        "text": ("Kernel-checked: keys equal under == feed the same byte stream to the hasher (all values; uses one IEEE fact as hypothesis, none for float-free keys), hence get/insert of the "
-                 "hash-table model equal the association-list spec for every table and key, the pairwise law, and refinement for every sequence of inserts and lookups. The byte stream "
-                 "of the real `impl Hash` is observed with a recording Hasher and compared with the model; a real HMap is driven through insert/get/contains/len and m[k], m[k]=v."),
-        "note": ("Assumes std HashMap finds an entry iff hashes are equal and keys ==, SipHash collision-free on distinct streams; FloatLaw (equal doubles have equal normalised bits) is a hypothesis. "
-                 "Integer keys beyond 2^53 mixed with floats are unconstrained in sequences (== not transitive)."),
-    },
+    _c("C01", "Lean scanner model compared token-by-token with the real scanner + bounded-exhaustive no-panic/no-hang run of scan→parse→compile",
+       "The scanner is modelled in Lean (every index/slice a checked access) and compared with the real scanner on all strings of length ≤3 (≤4 thorough) over a 31-character alphabet, "
+       "token soup and programs; scan→parse→compile runs in-process under catch_unwind + watchdog on ≈250k texts (short strings, token sequences ≤3 over all token kinds, ≤5 over a core, "
+       "mutated programs, nesting to 64). The keyword / single / twin-character tables the model uses are regenerated from the source on every run.",
+       "Open obligations: scan_total (fuel bound + no panic, by induction), parse_no_panic/parse_fuel (parser model), compile_no_panic, gate. Until they are closed the level is the "
+       "model-correspondence + exhaustive search, reported as such in the evidence (obligations 0)."),
+    _c("C02", "Lean reference semantics (big-step evaluator + static resolver) as executable spec/oracle; Lean VM model run on the real compiler's bytecode; differential run",
+       "P2sh.Ref / P2sh.Static are the specification written from the property (evaluation order, lexical scoping, closures by value, globals by reference, static faults). Every generated "
+       "program is run by the real pipeline and judged against the Lean reference (final value, observation array, runtime error + line, compile error + line, stack height 0). "
+       "Independently the Lean VM model executes the REAL compiler's bytecode for every program and must agree with the real VM (value, observations, error line, stack height).",
+       "The universal compiler-correctness theorem (compile_sound_core) is open; the closed theorems this property rests on are those of C09 (operators), C06 (truthiness), C10 (maps), C04 (symbol table), C14 (codec)."),
+    _c("C03", "Lean theorems over translator-generated PARSE_RULES/Precedence tables vs the documented table + min/full parenthesisation differential run",
+       "Kernel-checked: every operator token's rule has the documented rank and associativity, the Pratt loop tests `<` for left and `≤` for right associativity, prefix operands parse at "
+       "Unary, every token with precedence has an infix parser. The run renders every tree minimally (documented table) and fully parenthesised: the real parser must yield the same AST and "
+       "the reference semantics of the fully parenthesised tree is the oracle for the minimal text.",
+       "Open: parse_renderMin for the Pratt parser model (prototype in DESIGN Appendix A)."),
+    _c("C04", "Lean theorems on the symbol-table model (tied step-by-step to the real SymbolTable) + scope-skeleton differential run against the lexical reference",
+       "Kernel-checked on the symbol-table model: the innermost binding wins, a block's binding is forgotten exactly when the block ends (store restored), every name resolves after the block "
+       "as before it, a name bound nowhere does not resolve. The model is compared with the real SymbolTable on random define/resolve/leave_block/enter/leave sequences; enumerated scope "
+       "skeletons (blocks, shadowing, siblings, nested functions, closures called later; uses before/inside/after) run through the real pipeline against P2sh.Ref/P2sh.Static.",
+       "Open: whole-compiler resolve_agrees; closure_snapshot on the VM model."),
+    _c("C05", "Lean theorems on the range/equality tests of the match template + exhaustive scrutinee×pattern tables against the reference semantics",
+       "Kernel-checked for all 64-bit operands: the two-comparison test the match template performs is interval membership (a..b excludes b, a..=b includes it); equality patterns use the negation "
+       "of ==. Exhaustive tables (int/char/byte/string/bool domains, all ranges in the window, two-arm programs, kind pairs for the rejection rule), if/else-if chains over truthiness "
+       "representatives, and generated nestings of if/match/labelled loops run through the real pipeline against P2sh.Ref/P2sh.Static.",
+       "Open: the bytecode-level template lemmas (inside compile_sound_core), mixed_arms_rejected as a theorem."),
+    _c("C06", "Lean theorem falsey_table (is_falsey = documented table for every value) + exhaustive differential run of is_falsey / ! on the real code",
+       "Kernel-checked: Object::is_falsey as modelled equals the documented falsey table for every value of every kind; ! yields true exactly on it and never fails. Compared with the real "
+       "is_falsey and Bang opcode on representatives of every kind and random values; the if/while/&&/|| positions are exercised through the language-level engine (C02/C05).",
+       "Open: and_sem / or_sem template lemmas."),
+    _c("C07", "operand-stack height of the real VM after every generated program (hook VM::verif_sp) against the reference semantics; long loops beyond STACK_SIZE",
+       "Statement shapes incl. empty match arms, branches ending in nested blocks, break/continue in every position; the real VM's height after the run must be 0 and 5000-iteration loops must "
+       "not overflow. The reference semantics supplies values and control flow (break/continue leaving an expression).",
+       "Known finding K1 (break/continue with pending operands leaks a slot) is listed in known_findings.json. Open: Bcv.sound_heights, compile_balanced (no closed theorem yet: obligations 0)."),
+    _c("C08", "Lean theorems (no operator application panics; /0 and %0 are errors) + no-panic oracle over operators, builtins, format strings and programs in-process",
+       "Kernel-checked: for every operator and every pair of values the model raises no panic (the only excluded request: repetition beyond 16 MiB), unary operators likewise, /0 and %0 are runtime "
+       "errors. ≈130k cases run under catch_unwind + watchdog: every operator × kind pair × boundary values, every in-process-safe builtin × arities × kinds, format strings incl. malformed, "
+       "programs with deep/unbounded recursion, wide frames, absurd shift/repeat/precision arguments.",
+       "Open: builtins_no_panic, vm_safe (bytecode verifier). Filters with return/break are covered by C20's engine."),
+    _c("C09", "Lean theorems (model of the operator opcodes meets Spec.Ops) + exhaustive kind-pair/boundary differential run against the real VM",
+       "Kernel-checked: integer + - * / % and unary - ~ equal exact integer arithmetic reduced modulo 2^64 for all operands, /0 and %0 are runtime errors for every numeric kind, no operator "
+       "application panics, the error rows (arrays under non-+, booleans under ordering, negative repetition), integer relational consistency with ==. Spec.Ops is the oracle for every "
+       "operator × every ordered pair of operand kinds × boundary pools + random 64-bit operands through the real VM.",
+       "Open: full-table binary_spec (shifts and byte arithmetic covered by the exhaustive oracle run only). Float results = the IEEE primitive applied to the converted operands (IEEE trusted)."),
+    _c("C10", "Lean refinement proof (hash-table model refines an association list under ==) + differential run on a real HMap",
+       "Kernel-checked: keys equal under == feed the same byte stream to the hasher (one IEEE fact as hypothesis; none for float-free keys), hence get/insert equal the association-list spec, "
+       "the pairwise law, and refinement for every sequence of inserts and lookups. The real `impl Hash` is observed with a recording Hasher; a real HMap is driven through insert/get/contains/len, m[k], m[k]=v.",
+       "Assumes std HashMap finds an entry iff hashes are equal and keys ==; SipHash collision-free on distinct streams."),
+    _c("C11", "Lean theorems (UTF-8, chars/join, len round trips; arity contract) + every builtin × arity × kind differential run through the real VM",
+       "Kernel-checked: decode_utf8(encode_utf8 s) = s, len(encode_utf8 s) = len s, join(chars s) = s for every string; is_error total; one-argument builtins reject every other arity with an error. "
+       "Spec.Builtins (from the documentation) is the oracle for 23 pure builtins × arity 0..4 × kinds × boundary/random values (scalar-value boundaries, invalid UTF-8 classes, sort on every comparability class).",
+       "Known findings: char/byte reject documented kinds (string, boolean). Open: builtin_contract, int_str, sort_sorted_perm; float(str x) not modelled (tested only)."),
+    _c("C12", "Lean theorems on the format state-machine model + grammar-derived differential run against the reference renderer",
+       "Kernel-checked: literal text renders as itself for every brace-free string (model and reference parser), the print family returns the byte length written (+1 for ln), a missing argument is an error. "
+       "Spec.Format (documented grammar) is the oracle for all one-item strings over index/fill/justify/width/radix sets × argument lists, random multi-item strings, malformed specifiers (no-crash).",
+       "Open: format_refines for every grammar-derived string."),
+    _c("C13", "generated failing constructs on known lines (independent of the scanner) + reference semantics predicting `rterr <line>`; Lean lemma make_lines_aligned",
+       "One failing construct per program on a random line after random filler (comments, blank lines, definitions, loops, functions), inside/outside functions and closures, LF and CRLF; the reported "
+       "line must equal the line computed from the text layout, and the reference semantics must predict the same line. Kernel-checked: make() emits exactly one line entry per code byte.",
+       "Open: fail_line (compiler-model invariant lines_aligned + per-opcode line of the failing instruction)."),
+    _c("C14", "Lean theorems over translator-generated opcode tables + differential correspondence of make/read_operands",
+       "Kernel-checked: decode(encode)=id for every opcode and operand list that fits the declared widths (unbounded), the VM's inline operand reads equal the DEFINITIONS layout, From<u8> inverts the "
+       "discriminant. Tables regenerated from the Rust source on every run; make/lookup/read_operands compared on every opcode byte and an operand sweep.",
+       "Open: compile_rejects_overflow (the compiler silently truncates operands: defect F24, not yet repaired; see DESIGN §8)."),
+    _c("C20", "Lean theorems on the stream-loop model + end-to-end differential run of the binary (dev+release) against FilterSpec",
+       "Kernel-checked on the run_filters model (filters abstract): selected numbers are packet indices, written in input order, the end filter sees the packet count. FilterSpec (reference semantics + "
+       "NP/PL/WL/TSS/TSU) is the oracle for random pcap streams × generated filter programs, with and without -s: which packets are written, order, multiplicity, output header = input header, program output.",
+       "Open: stream_loop_refines with concrete filters. Packet field access inside filters is C15–C17's."),
+    _c("C23", "Lean theorems on the REPL state-carrying model + end-to-end histories through the real run_prompt (scripted-line hook) against the folded reference semantics",
+       "Kernel-checked: a rejected line leaves the carried state unchanged, histories compose (state after ls1++ls2 = fold), rejected lines can be skipped. Random histories (definitions, redefinitions, "
+       "functions, parse/compile errors incl. inside function bodies, runtime failures) run through the real loop; per-line program output and diagnostics class must equal ReplSpec.",
+       "Known finding: names defined by the unexecuted tail of a line that failed at run time are already bound. Open: accepted_line_composes at the compiler/VM level."),
+    _c("C24", "Lean theorems on the model of main/CliArgs/run_buf + end-to-end runs of the binary in script, -c and shebang modes",
+       "Kernel-checked: -c prints exactly the script's output plus the final value's line (only when the program ran to its end with a non-null value), diagnostics ⇒ nothing printed, argv per mode. "
+       "Generated programs × argument vectors × {file, -c, #! file}: stdout relation, argv as seen by the program, shebang-insensitivity (line numbers shifted), the gate.",
+       "clap's grouping of the command line is assumed. Open: shebang_is_comment on the scanner model."),
 ]
 
 _claimed = {c["property_id"] for c in CHECKS}
-NOT_APPLICABLE = [
-    {"property_id": p, "reason": "not yet claimed in this revision: model slice, theorem and correspondence engine still being built (technique applies; see DESIGN.md §6)"}
-    for p in _ALL if p not in _claimed
-]
+_PENDING = {
+    "C15": "slice under construction in this revision (packet model, Rfc spec, pkt op); technique applies — see DESIGN.md §6 C15",
+    "C16": "slice under construction in this revision (packet model, Rfc spec, pkt op); technique applies — see DESIGN.md §6 C16",
+    "C17": "slice under construction in this revision (packet model, Rfc spec, pkt op); technique applies — see DESIGN.md §6 C17",
+    "C18": "slice under construction in this revision (address parsers model/spec, addr op); technique applies — see DESIGN.md §6 C18",
+    "C19": "slice under construction in this revision (pcap file model/spec, pcap op); technique applies — see DESIGN.md §6 C19",
+    "C21": "slice under construction in this revision (abstract-reader model, end-to-end file engine); technique applies — see DESIGN.md §6 C21",
+    "C22": "slice under construction in this revision (fault-oracle model, end-to-end failing-target engine); technique applies — see DESIGN.md §6 C22",
+}
+NOT_APPLICABLE = [{"property_id": p, "reason": _PENDING.get(p, "not yet claimed in this revision")} for p in _ALL if p not in _claimed]
